@@ -151,7 +151,10 @@ type Scn struct {
 	SynAck    *simnet.SynAckSpec `json:"synack,omitempty"`
 	NoListen  bool               `json:"no_listen,omitempty"` // SACK: target port closed
 	// DialBlackhole (SACK): the TCP connect never completes - the SYN is silently dropped, nothing comes back
-	DialBlackhole bool  `json:"dial_blackhole,omitempty"`
+	DialBlackhole bool `json:"dial_blackhole,omitempty"`
+	// MustClosePort: the platform's handle says the run must close the socket it reserved its port with (the Windows
+	// raw-socket handle does; the SACK variant is not available there)
+	MustClosePort bool  `json:"must_close_port,omitempty"`
 	FiltersOff    bool  `json:"filters_off,omitempty"`
 	Port          int   `json:"port,omitempty"`
 	Flow          int   `json:"flow,omitempty"` // distinguishes router addresses of concurrent runs
@@ -718,6 +721,7 @@ func Prepare(script *Script, scns ...*Scn) *simnet.Net {
 	n.NoOutgoingLoop = sc0.NoOwnLoop
 	n.DirectIP = sc0.DirectIP
 	vnet.Blackhole, vnet.Dials = nil, 0
+	packets.VerifMustClosePort = sc0.MustClosePort
 	if sc0.EpsNs > 0 {
 		n.EpsNs = sc0.EpsNs
 	}
